@@ -6,7 +6,7 @@ S = set
 BASE = dict(
     Accts=S(['a1', 'a2', 'a3']), FeeUnit=1000, MaxHeight=3, Deviations=S(),
     Topics=S(), Descs=S(['x']), Mons=S(['m']), RecKeys=S(['k1']), RecVals=S(['v1', 'v2']), FeePayers=S(['none']),
-    Dids=S(), DocNames=S(), Keys=S(), VmNames=S(), Seqs=S([0, 1, 2]),
+    Dids=S(), DocNames=S(), Keys=S(), VmNames=S(), Seqs=S([0, 1, 2]), ForeignVm=False,
     DenomIds=S(), TokenIds=S(), DNames=S(), TDescs=S(['']),
     Amts=S(), SendDenoms=S(), VestEnds=S(),
     Fees=S([0]), Kinds=S(), SignerSets='exact', ExecOn=False,
@@ -108,7 +108,7 @@ def preset(pid, tier):
                Kinds=kinds, Fees=S([0, 1]), MaxTxLen=2, MaxDeliver=2 if q else 3, MaxHeight=2, NextKinds=S(['BeginBlock', 'Redeliver']))
         big = copy.deepcopy(c)
         big.update(Accts=S(['a1', 'a2', 'a3']), FeePayers=S(['none', 'a1', 'a3']), MaxDeliver=20, MaxHeight=5, FailKeep=2,
-                   Kinds=kinds | S(['aol.DeleteWriter']), DocNames=S(['A1', 'A2']), Keys=S(['k1', 'k2']))
+                   Kinds=kinds | S(['aol.DeleteWriter']), DocNames=S(['A1', 'A2', 'R1']), Keys=S(['k1', 'k2']))
         # rollback probes over a one-account mixed alphabet: [m1, m2, always-failing] must leave nothing behind, in the stores or in process memory
         pr = mk(Topics=S(['t1']), ViewTopics=S(['t1']), RecVals=S(['v1']), Accts=S(['a1']), Dids=S(['d1']), ViewDids=S(['d1']), Keys=S(['k1']), VmNames=S(['v1']), DocNames=S(['A1']),
                 Seqs=S([0]), DenomIds=S(['n1']), TokenIds=S(['i1']), DNames=S(['x']), ViewDenoms=S(['n1']), ViewTokens=S(['i1']), Kinds=kinds, MaxDeliver=2 if q else 3, MaxHeight=2)
@@ -120,7 +120,7 @@ def preset(pid, tier):
         mcc = did(DocNames=docs, MaxDeliver=4 if q else 5, MaxHeight=3 if pid == 'C05' else 2,
                   NextKinds=ALL_NEXT if pid == 'C05' else (S(['BeginBlock', 'Redeliver']) if pid == 'C04' else S(['BeginBlock'])))
         simc = did(Accts=S(['a1', 'a2', 'a3']), Dids=S(['d1', 'd2', 'dc']), ViewDids=S(['d1', 'd2', 'dc']),
-                   DocNames=S(['A1', 'A2', 'B12', 'C1', 'D2', 'E1', 'F12', 'N0', 'EMP']), MaxDeliver=30, MaxHeight=6, NextKinds=ALL_NEXT_R, FailKeep=25)
+                   DocNames=S(['A1', 'A2', 'B12', 'C1', 'D2', 'E1', 'F12', 'R1', 'N0', 'EMP']), ForeignVm=True, MaxDeliver=30, MaxHeight=6, NextKinds=ALL_NEXT_R, FailKeep=25)
         tourc = did(DocNames=S(['A1', 'A2', 'F12']) if q else S(['A1', 'A2', 'C1', 'D2', 'F12']), Keys=S(['k1', 'k2']) if q else S(['k1', 'k2', 'k3']), MaxDeliver=2 if q else 3, MaxHeight=2)
         return dict(mc=mcc, props=props, invs=invs, tour=tourc, sims=[sim(simc, 150 if q else 3000, 50)], mc_timeout=2400)
     if pid in ('C06', 'C12'):
@@ -158,7 +158,7 @@ def preset(pid, tier):
                  MaxDeliver=3 if q else 4, MaxHeight=3, NextKinds=S(['BeginBlock', 'ExportImportBegin']))
         simc = mk(Accts=S(['a1', 'a2', 'a3', 'a4']), Topics=S(['t1', 't2', 't3']), ViewTopics=S(['t1', 't2', 't3']), RecKeys=S(['k1', 'k2', '']), RecVals=S(['v1', 'v2', '']),
                   Descs=S(['x', '']), Mons=S(['m', '']),
-                  Dids=S(['d1', 'd2']), ViewDids=S(['d1', 'd2']), Keys=S(['k1', 'k2']), VmNames=S(['v1', 'v2']), DocNames=S(['A1', 'A2', 'B12', 'C1', 'D2']),
+                  Dids=S(['d1', 'd2']), ViewDids=S(['d1', 'd2']), Keys=S(['k1', 'k2']), VmNames=S(['v1', 'v2']), DocNames=S(['A1', 'A2', 'B12', 'C1', 'D2', 'R1']),
                   DenomIds=S(['n1', 'n2', 'n3']), TokenIds=S(['i1', 'i2', 'i3']), DNames=S(['x', 'y']), TDescs=S(['', 'q']), ViewDenoms=S(['n1', 'n2', 'n3']), ViewTokens=S(['i1', 'i2', 'i3']),
                   Kinds=allk, MaxDeliver=60, MaxHeight=8, NextKinds=S(['BeginBlock', 'ExportImportBegin']), FailKeep=40)
         # generator that believes '/' is fine in topic names (the genesis key separator); the judge keeps the published alphabet
